@@ -28,7 +28,8 @@ IdsOf(q) == { q[i].id : i \in DOMAIN q }
 
 \* WriteRoundWork(chain, round, q, credit), q the submitted slice.  One Badger transaction:
 \* an abort leaves the store unchanged.  Result [res, st].
-WriteRoundWork(st, round, q, credit) ==
+\* (P = the chain, i.e. the proposer of its snapshots; the counters lead/sign are shared by all chains)
+WriteRoundWorkP(P, st, round, q, credit) ==
     IF st.off > round THEN [res |-> "ok", st |-> st]                    \* already accounted
     ELSE IF round > st.off + 1 THEN [res |-> "panic", st |-> st]        \* gap in the offsets
     ELSE IF round = st.off /\ ~(st.seen \subseteq IdsOf(q)) THEN [res |-> "panic", st |-> st]   \* shrinking set
@@ -39,15 +40,17 @@ WriteRoundWork(st, round, q, credit) ==
       IF fresh = <<>> THEN [res |-> "ok", st |-> ck]
       ELSE IF fresh[1].signers = {} \/ ~credit THEN [res |-> "ok", st |-> ck]
       ELSE IF \E i \in DOMAIN fresh : fresh[i].day # fresh[1].day THEN [res |-> "panic", st |-> st]
-      ELSE IF \E i \in DOMAIN fresh : Proposer \notin fresh[i].signers THEN [res |-> "panic", st |-> st]
+      ELSE IF \E i \in DOMAIN fresh : P \notin fresh[i].signers THEN [res |-> "panic", st |-> st]
       ELSE
         LET d == fresh[1].day
             cnt(m) == Cardinality({ i \in DOMAIN fresh : m \in fresh[i].signers })
         IN [res |-> "ok",
-            st  |-> [ck EXCEPT !.lead[Proposer][d] = @ + Len(fresh),
+            st  |-> [ck EXCEPT !.lead[P][d] = @ + Len(fresh),
                                !.sign = [m \in Members |->
-                                            IF m = Proposer THEN ck.sign[m]
+                                            IF m = P THEN ck.sign[m]
                                             ELSE [ck.sign[m] EXCEPT ![d] = @ + cnt(m)]]]]
+
+WriteRoundWork(st, round, q, credit) == WriteRoundWorkP(Proposer, st, round, q, credit)
 
 (***************************************************************************)
 (* Property C26.  done = the snapshots that were part of a successful      *)
@@ -64,6 +67,26 @@ SignOf(done, m, d) ==
 \* lead / sign given as [member][day] tables (functions or sequences)
 WorkInv(done, lead, sign) ==
     \A m \in Members, d \in Days : lead[m][d] = LeadOf(done, m, d) /\ sign[m][d] = SignOf(done, m, d)
+
+(***************************************************************************)
+(* Several chains.  Every chain has its own checkpoint; the counters are    *)
+(* shared (a chain's proposer is a signer of other chains' snapshots).      *)
+(* dones[k] = accounted snapshots of chain k (as above), prop[k] its        *)
+(* proposer.  WriteRoundWork is one optimistic Badger transaction: it       *)
+(* either commits as a whole or reports a conflict and changes nothing, so  *)
+(* concurrent submissions of different chains commute and every accounted   *)
+(* snapshot counts once whatever the interleaving and the retries.          *)
+(***************************************************************************)
+LeadOfAll(dones, prop, m, d) ==
+    Cardinality(UNION { { <<k, s.id>> : s \in { y \in dones[k] : y.credit /\ y.day = d } } :
+                          k \in { j \in DOMAIN dones : prop[j] = m } })
+SignOfAll(dones, prop, m, d) ==
+    Cardinality(UNION { { <<k, s.id>> : s \in { y \in dones[k] : y.credit /\ y.day = d /\ m \in y.signers } } :
+                          k \in { j \in DOMAIN dones : prop[j] # m } })
+
+WorkInvAll(dones, prop, lead, sign, members) ==
+    \A m \in members, d \in Days :
+        lead[m][d] = LeadOfAll(dones, prop, m, d) /\ sign[m][d] = SignOfAll(dones, prop, m, d)
 
 \* ghost update on a successful submission
 DoneAfter(done, q, credit) ==
